@@ -37,7 +37,7 @@ std::string hex(const std::string &s) {
     return h;
 }
 // a plain name, a hidden name with a space, a name that starts with two dots and has non-ASCII bytes
-const char *NAMES[] = {"", "a", ".b c", "..x\xc3\xa9"};
+const char *NAMES[] = {"", "a:b", ".b c", "..x\xc3\xa9"};
 
 std::string rel_of(const std::string &node) {   // "1.2.3" -> a/b c/.xé
     std::string r;
@@ -149,9 +149,11 @@ void run_visitor(const Execution &ex) {
     int i = 0;
     for (const auto &st : ex.steps) {
         std::string op = st.str("op");
+        int d = (int) st.num("d", 0);
+        size_t vi = (size_t) st.num("v", 1) - 1;
         if (op == "Construct") {
-            int d = (int) st.num("d");
-            if (d == 0) stack.push_back(std::make_unique<tulz::DirectoryVisitor>(Path("")));
+            if (d == 0 && i % 2 == 0) stack.push_back(std::make_unique<tulz::DirectoryVisitor>(Path("")));
+            else if (d == 0) stack.push_back(std::make_unique<tulz::DirectoryVisitor>());
             else if (i % 2 == 0) stack.push_back(std::make_unique<tulz::DirectoryVisitor>(Path(dirs[d])));
             else {   // default constructor + set + visit
                 auto v = std::make_unique<tulz::DirectoryVisitor>();
@@ -159,6 +161,14 @@ void run_visitor(const Execution &ex) {
                 v->visit();
                 stack.push_back(std::move(v));
             }
+        } else if (op == "SetDir") {
+            stack.at(vi)->set(d == 0 ? Path("") : Path(dirs[d]));
+        } else if (op == "Visit") {
+            stack.at(vi)->visit();
+        } else if (op == "Restore") {
+            stack.at(vi)->restore();
+        } else if (op == "Chdir") {
+            fs::current_path(dirs[d]);   // behind the visitors' back
         } else {
             stack.pop_back();
         }
